@@ -44,13 +44,25 @@ use zeroize::Zeroize;
 /// Unlike many other heap-allocated big integer libraries, this type is not
 /// arbitrary precision and will wrap at its fixed-precision rather than
 /// automatically growing.
-#[allow(clippy::derived_hash_with_manual_eq)]
-#[derive(Clone, Hash)]
+#[derive(Clone)]
 pub struct BoxedUint {
     /// Boxed slice containing limbs.
     ///
     /// Stored from least significant to most significant.
     pub(crate) limbs: Box<[Limb]>,
+}
+
+// `PartialEq` compares zero-padded values, so the hash must not depend on the precision either:
+// hash the limbs up to the most significant non-zero one.
+impl core::hash::Hash for BoxedUint {
+    fn hash<H: core::hash::Hasher>(&self, state: &mut H) {
+        let len = self
+            .limbs
+            .iter()
+            .rposition(|limb| limb.0 != 0)
+            .map_or(0, |i| i + 1);
+        self.limbs[..len].hash(state);
+    }
 }
 
 impl BoxedUint {
